@@ -38,6 +38,7 @@ pub fn run_one(out: &mut Out, s: &Value) {
     }
     if ovr && !smart {
         d["factor"] = json!(k);
+        d["factor_first"] = json!(s.get("ofirst").and_then(|x| x.as_bool()).unwrap_or(false));
     }
     run.exec(&d);
     let mut evs: Vec<Value> = vec![];
@@ -146,7 +147,7 @@ pub fn main(a: &vcommon::Args) {
                 for sl in slots {
                     steps.push(json!({"slot": sl, "ok": r.gen_bool(okp), "poll": r.gen_bool(0.7)}));
                 }
-                let mut s = json!({"n": n, "k": k, "override": r.gen_bool(0.5), "steps": steps, "behdup": r.gen_bool(0.25)});
+                let mut s = json!({"n": n, "k": k, "override": r.gen_bool(0.5), "ofirst": r.gen_bool(0.5), "steps": steps, "behdup": r.gen_bool(0.25)});
                 if nsmart > 0 {
                     // smart dialing: staggered real-time delays (30 ms steps for private TCP addresses); no factor
                     nsmart -= 1;
